@@ -67,6 +67,8 @@ def effect_events(ctx, fi, state_attrs, eff):
 
 
 def run(ctx):
+    from .configtime import derived_values as _derived
+    _derived(ctx, 'C16.R1', ('Recipe', 'RecipeStep'))
     from .configtime import no_identity_test_against_literals as _no_is_literal
     _no_is_literal(ctx, 'C16.R1', classes=('Recipe', 'RecipeStep'))
     from .atomic import validate_before_mutate as _atomic
